@@ -18,6 +18,18 @@ CLAIMED = {
          "note": "Trusted: the six-line kernel model of epoll_ctl (ADD on empty, MOD/DEL on non-empty succeed; EEXIST/ENOENT otherwise), clang constant folding, lvx. "
                  "Assumes the kernel registration equals old_events when a change is applied (that is C05).",
          "technique": "static analysis: constant-table extraction + exhaustive comparison with a reference model (K6), CFG dominance for the reader"},
+ "C08": {"level": "other",
+         "text": "K1 BALANCE over all 31 units and all lock classes: for every path of every function (including all error exits) the net effect on each "
+                 "lock class is computed by dataflow over clang's CFG with interprocedural summaries (ops-table slots and function-pointer parameters resolved); "
+                 "every public API function and every function used as a callback must return at depth 0 and never drop below its entry depth (the four explicit "
+                 "lock APIs exactly +-1); functions whose returns disagree are reported at the function that creates the imbalance with a witness path; no user "
+                 "callback under the non-recursive base lock; no re-acquisition of a non-recursive class. Found and repaired three genuine leaks on the pinned tree "
+                 "(event_base_once, evdns_cache_lookup, evdns_getaddrinfo_fromhosts). Decides release-on-every-return for all syntactic paths; it is a may-analysis "
+                 "by lock class, so it cannot distinguish two instances of one class and it trusts the documented infeasibilities that asserts express.",
+         "note": STD_NOTE + " Analysed with -UNDEBUG (asserts cut paths). World: locking enabled (lock pointers non-NULL). User callbacks assumed lock-neutral. "
+                 "Idioms modelled explicitly: NULL-lock wrapper, LOCK2/UNLOCK2, EVLOCK_TRY_LOCK_ (shape re-checked), pair partner token (writers re-checked), "
+                 "one named re-entry exception (event_reinit -> dealloc -> evsig_dealloc_ -> event_del) with both justifying facts re-checked each run.",
+         "technique": "static analysis: interprocedural typestate/balance dataflow over clang CFGs (K1) with summaries, sibling comparison of ops slots (K7)"},
 }
 
 NOT_APPLICABLE = {
